@@ -36,6 +36,15 @@ def gen_case(rnd, cid):
         va, vb = progs.domain_values(rnd, op, bl, ka, kb)
         if op in ("lt", "le", "gt", "ge", "eq", "ne") and rnd.random() < 0.5:
             vb = va + rnd.choice([0, 0, 1, -1])          # boundary of the comparison
+        if op in ("lt", "le", "gt", "ge") and ka == "L" and rnd.random() < 0.12:
+            # user-selected ignore-errors mode with an operand far outside the bitlength: the honest witness does not satisfy the
+            # system (by design), but a prover must still not be able to prove EITHER outcome
+            cfg["ign"] = 1
+            # the tested difference d must be outside BOTH provable ranges in the field: d mod p and (-d-1) mod p not in [0, 2^bl)
+            r = rnd.randrange((1 << bl) + 1, P - (1 << bl) - 1)
+            d = r + P * rnd.randrange(1, 4)
+            vb = rnd.randrange(0, half)
+            va = {"lt": vb - d - 1, "le": vb - d, "gt": vb + d + 1, "ge": vb + d}[op]
         if op in ("eq", "ne") and rnd.random() < 0.15:
             vb = va + rnd.choice([P, -P, 2 * P])         # operands that differ as integers but are EQUAL in the field
         if op in ("and", "or", "xor", "rshift", "lshift", "pow"):
@@ -181,7 +190,7 @@ def explore(ctx, extended=False, focus=None):
             mm = _re.match(r"L:(-?\d+):", r.regs[db]) if 0 <= db < len(r.regs) else None
             if mm and int(mm.group(1)) != 0 and int(mm.group(1)) % P == 0:
                 sig["divisor"] = "nonzero-multiple-of-p"
-        if nsol == 0 and complete:
+        if nsol == 0 and complete and not r.case.cfg.get("ign"):
             ex.violations.append(Violation(dict(sig, dev="honest-witness-unsat"),
                                            f"{r.case.instrs[t]}: no assignment of the new wires satisfies the emitted constraints",
                                            {"case": r.case.line()}))
